@@ -3,7 +3,7 @@
    any deterministic interpretation of the data-dependent parts, any global generator state, any
    interleaved activity [env] on the global generator. *)
 From Coq Require Import List Arith ZArith Bool.
-From TLV Require Import Model.Draws Proofs.DrawsProofs Proofs.DrawsProofsSem Proofs.DrawsProofsPy.
+From TLV Require Import Model.Draws Proofs.DrawsProofs Proofs.DrawsProofsSem Proofs.DrawsProofsPy Proofs.DrawsProofsPy2 Proofs.DrawsProofsHist.
 Import ListNotations.
 
 (* check_random_state: None -> the global generator, int in [0, 2**32) -> a fresh object seeded with it (nothing
@@ -101,7 +101,8 @@ Proof. exact deterministic_draw_free. Qed.
 Print Assumptions C16_deterministic_entry_points_draw_free.
 
 (* ... hence: SVD- / user-initialised parafac, non_negative_parafac(_hals), constrained_parafac, tucker, partial_tucker,
-   non_negative_tucker(_hals), parafac2, svd_interface with truncated / symeig SVD draw NOTHING from any generator,
+   non_negative_tucker(_hals), parafac2 (+ its initialize_decomposition and _compute_projections),
+   initialize_constrained_parafac, svd_interface with truncated / symeig SVD draw NOTHING from any generator,
    whatever random_state is (None included), and leave the global generator to the environment: repeated calls see
    exactly the same thing *)
 Theorem C16_deterministic_entry_points : forall (gstate value req : Type) (draw : req -> gstate -> value * gstate) (seed : Z -> gstate)
@@ -334,6 +335,85 @@ Theorem C16_two_processes : forall (gstate value req : Type) (draw : req -> gsta
 Proof. exact histories_same_seed_same_result. Qed.
 Print Assumptions C16_two_processes.
 
+(* THE TWO LANGUAGES AGREE: every skeleton of the first language (one rng variable per scope), written in the Python-shaped
+   language by [embed] (variable 0 = random_state, variable 1 = rng), has EXACTLY the same calls: same outcome (draws,
+   error flag, final state of a passed object, source log) and same final global state, for every generator,
+   interpretation, environment, global state and random_state.  So the hand-written skeletons of the entry points and the
+   skeletons transcribed from the source live in one language with one semantics, and every source-level theorem
+   (C16_source_analysis, C16_source_rng_free, C16_source_invalid_seed_rejected) applies to the hand-written ones too *)
+Theorem C16_languages_agree : forall (gstate value req : Type) (draw : req -> gstate -> value * gstate) (seed : Z -> gstate)
+    (I : interp value req) (sk : skel) (a : rsarg gstate) (env : nat -> gstate -> gstate) (g : gstate),
+  pcall gstate value req draw seed env I (embed sk) a g = call gstate value req draw seed env I sk a g.
+Proof. exact embed_call. Qed.
+Print Assumptions C16_languages_agree.
+
+(* source level, out-of-range int seeds: a transcribed skeleton that certainly hands its own (not re-bound) random_state
+   argument to check_random_state on every path ([pmust_check], evaluated by corr:C16-static on the source of every entry
+   point whose hand-written skeleton always checks) fails for every int outside [0, 2**32), whatever the global state and
+   the interleaving *)
+Theorem C16_source_invalid_seed_rejected : forall (gstate value req : Type) (draw : req -> gstate -> value * gstate) (seed : Z -> gstate)
+    (I : interp value req) (sk : pskel) (s : Z),
+  pmust_check sk = true -> seed_ok s = false ->
+  forall env g, o_failed (fst (pcall gstate value req draw seed env I sk (HInt s) g)) = true.
+Proof. exact pinvalid_seed_rejected. Qed.
+Print Assumptions C16_source_invalid_seed_rejected.
+
+(* the source-level criteria are conservative extensions of the first language's: on an embedded skeleton they accept
+   whatever must_check accepts, and they see exactly the same draws *)
+Theorem C16_source_criteria_extend : forall sk : skel,
+  (must_check sk = true -> pmust_check (embed sk) = true) /\ pdraw_free (embed sk) = draw_free sk.
+Proof. intro sk. exact (conj (must_check_embed sk) (pdraw_free_embed sk)). Qed.
+Print Assumptions C16_source_criteria_extend.
+
+(* THE GENERATOR-INSTANCE CLAUSE in histories: two calls of the same entry point with the same arguments that receive
+   caller-owned generator objects in the SAME STATE at the moment of the call -- two RandomState(s) created anywhere
+   (ENew s ... ENew s), one of them possibly used before by other calls as long as the states coincide, in one process
+   or in two different ones -- return the same outcome o (draws, error flag, final object state o_inst), write the same
+   final state back into their objects and leave the global generator exactly as they found it.  Premise: the
+   join-precise analysis accepts the skeleton (true of every seedable entry point: C16_skeletons_global_free +
+   C16_join_precise_subsumes) *)
+Theorem C16_identical_instances_history : forall (gstate value req : Type) (draw : req -> gstate -> value * gstate) (seed : Z -> gstate)
+    (h h' : list (event gstate value req)) (g g' : gstate) (insts insts' : list gstate) (i j : nat) (ip : interp value req) (sk : skel)
+    (k k' : nat) (gs : gstate),
+  nth_error h i = Some (ECall ip sk (RInst k)) -> nth_error h' j = Some (ECall ip sk (RInst k')) ->
+  global_free_w sk = true ->
+  nth_error (snd (state_at gstate value req draw seed h i g insts)) k = Some gs ->
+  nth_error (snd (state_at gstate value req draw seed h' j g' insts')) k' = Some gs ->
+  exists o,
+    nth_error (fst (fst (run_hist gstate value req draw seed h g insts))) i = Some (Some o) /\
+    nth_error (fst (fst (run_hist gstate value req draw seed h' g' insts'))) j = Some (Some o) /\
+    snd (state_at gstate value req draw seed h (S i) g insts) =
+      writeback gstate value (RInst k) o (snd (state_at gstate value req draw seed h i g insts)) /\
+    snd (state_at gstate value req draw seed h' (S j) g' insts') =
+      writeback gstate value (RInst k') o (snd (state_at gstate value req draw seed h' j g' insts')) /\
+    fst (state_at gstate value req draw seed h (S i) g insts) = fst (state_at gstate value req draw seed h i g insts) /\
+    fst (state_at gstate value req draw seed h' (S j) g' insts') = fst (state_at gstate value req draw seed h' j g' insts').
+Proof. exact history_identical_instances. Qed.
+Print Assumptions C16_identical_instances_history.
+
+(* FUNCTIONS WITHOUT RANDOM CHOICES in histories: a call of a draw-free skeleton, anywhere in any history and whatever
+   random_state is (None and the global object included), draws nothing from any generator and leaves the global
+   generator exactly as it found it ... *)
+Theorem C16_history_rng_free : forall (gstate value req : Type) (draw : req -> gstate -> value * gstate) (seed : Z -> gstate)
+    (h : list (event gstate value req)) (g : gstate) (insts : list gstate) (i : nat) (ip : interp value req) (sk : skel) (a : hrs),
+  nth_error h i = Some (ECall ip sk a) -> draw_free sk = true ->
+  exists o, nth_error (fst (fst (run_hist gstate value req draw seed h g insts))) i = Some (Some o) /\
+            o_hist o = [] /\ o_srcs o = [] /\
+            fst (state_at gstate value req draw seed h (S i) g insts) = fst (state_at gstate value req draw seed h i g insts).
+Proof. exact history_rng_free. Qed.
+Print Assumptions C16_history_rng_free.
+
+(* ... and REPEATED CALLS return the same outcome: same function, same arguments, the same random_state of any kind but a
+   caller-owned object (None, the global object, any int, junk), at any two positions of any two histories *)
+Theorem C16_history_rng_free_same : forall (gstate value req : Type) (draw : req -> gstate -> value * gstate) (seed : Z -> gstate)
+    (h h' : list (event gstate value req)) (g g' : gstate) (insts insts' : list gstate) (i j : nat) (ip : interp value req) (sk : skel) (a : hrs),
+  not_inst a = true -> draw_free sk = true ->
+  nth_error h i = Some (ECall ip sk a) -> nth_error h' j = Some (ECall ip sk a) ->
+  nth_error (fst (fst (run_hist gstate value req draw seed h g insts))) i =
+  nth_error (fst (fst (run_hist gstate value req draw seed h' g' insts'))) j.
+Proof. exact history_rng_free_same. Qed.
+Print Assumptions C16_history_rng_free_same.
+
 (* ------------------------------------------------------------------ non-vacuity and sensitivity *)
 
 (* the hypotheses are satisfiable and the skeletons really draw: parafac with randomized SVD init, mask and
@@ -483,3 +563,51 @@ Example C16_deterministic_examples :
   draw_free (skeleton E_tucker {| o_shape := [4; 3; 5]; o_rank := 2; o_init := IRandom; o_svd := STruncated; o_mask := false;
                                   o_nrep := 0; o_iters := 3; o_aux := 0 |}) = false.
 Proof. repeat split; reflexivity. Qed.
+
+(* the languages agree, non-vacuously: the embedded parafac skeleton (randomized-SVD init, mask, padding) draws the same 12
+   values; the source-level criteria on embedded skeletons; an out-of-range seed is rejected by a transcribed-style
+   skeleton and NOT when the argument is re-bound before the check (the hypothesis of pmust_check is needed) *)
+Example C16_languages_agree_examples :
+  pcall Z Z nat toy_draw toy_seed toy_env toy_interp (embed (skeleton E_parafac ex_opts)) (HInt 3%Z) 0%Z =
+  call Z Z nat toy_draw toy_seed toy_env toy_interp (skeleton E_parafac ex_opts) (HInt 3%Z) 0%Z /\
+  length (o_hist (fst (pcall Z Z nat toy_draw toy_seed toy_env toy_interp (embed (skeleton E_parafac ex_opts)) (HInt 3%Z) 0%Z))) = 12 /\
+  pglobal_free (embed (skeleton E_parafac ex_opts)) = true /\
+  pmust_check (embed (skeleton (E_estimator E_parafac) ex_opts)) = true /\
+  pmust_check (embed (skeleton E_tucker ex_opts)) = false /\
+  pmust_check (PSeq (PAssign 2 (PVar 0)) (PCall (PVar 0) (PSeq (PCheck 1 (PVar 0)) (PDraw 1 0)))) = true /\
+  pmust_check (PSeq (PAssign 0 (PConstE 7%Z)) (PCheck 1 (PVar 0))) = false /\
+  o_failed (fst (pcall Z Z nat toy_draw toy_seed toy_env toy_interp
+                   (PSeq (PAssign 2 (PVar 0)) (PCall (PVar 0) (PSeq (PCheck 1 (PVar 0)) (PDraw 1 0)))) (HInt (-1)%Z) 0%Z)) = true /\
+  o_failed (fst (pcall Z Z nat toy_draw toy_seed toy_env toy_interp
+                   (PSeq (PAssign 0 (PConstE 7%Z)) (PCheck 1 (PVar 0))) (HInt (-1)%Z) 0%Z)) = false.
+Proof. vm_compute. repeat split; reflexivity. Qed.
+
+(* the instance clause in a history, non-vacuously: two RandomState(3) objects, the global generator re-seeded in between,
+   the first object used twice: calls 2 and 4 (objects 0 and 1, both fresh) return the same outcome and leave both objects in
+   the same state; call 5 (object 0 again, now advanced) returns something else; the global generator ends where the
+   environment put it *)
+Example C16_identical_instances_example :
+  let sk := skeleton E_cp_regressor ex_opts in
+  let h := [ENew 3%Z; ENew 3%Z; ECall toy_interp sk (RInst 0); EEnv (fun g => (g + 5)%Z); ECall toy_interp sk (RInst 1);
+            ECall toy_interp sk (RInst 0)] in
+  global_free_w sk = true /\
+  nth_error (snd (state_at Z Z nat toy_draw toy_seed h 2 0%Z [])) 0 = nth_error (snd (state_at Z Z nat toy_draw toy_seed h 4 0%Z [])) 1 /\
+  nth_error (fst (fst (run_hist Z Z nat toy_draw toy_seed h 0%Z []))) 2 = nth_error (fst (fst (run_hist Z Z nat toy_draw toy_seed h 0%Z []))) 4 /\
+  nth_error (fst (fst (run_hist Z Z nat toy_draw toy_seed h 0%Z []))) 2 <> nth_error (fst (fst (run_hist Z Z nat toy_draw toy_seed h 0%Z []))) 5 /\
+  nth_error (snd (state_at Z Z nat toy_draw toy_seed h 3 0%Z [])) 0 = nth_error (snd (state_at Z Z nat toy_draw toy_seed h 5 0%Z [])) 1 /\
+  nth_error (snd (state_at Z Z nat toy_draw toy_seed h 3 0%Z [])) 0 <> Some (toy_seed 3%Z) /\
+  snd (fst (run_hist Z Z nat toy_draw toy_seed h 0%Z [])) = 5%Z.
+Proof. vm_compute. repeat split; try reflexivity; discriminate. Qed.
+
+(* functions without random choices in a history, non-vacuously: SVD-initialised tucker called with random_state=None, then
+   the global generator re-seeded, then called again with None and once with an int: same outcome, nothing drawn, the global
+   generator only moved by the environment; the same with a random initialisation differs *)
+Example C16_history_rng_free_example :
+  let o := {| o_shape := [4; 3; 5]; o_rank := 2; o_init := ISvd; o_svd := STruncated; o_mask := true; o_nrep := 2; o_iters := 3; o_aux := 3 |} in
+  let o' := {| o_shape := [4; 3; 5]; o_rank := 2; o_init := IRandom; o_svd := STruncated; o_mask := true; o_nrep := 2; o_iters := 3; o_aux := 3 |} in
+  let h := fun o => [ECall toy_interp (skeleton E_tucker o) RNone; EEnv (fun g => (g + 5)%Z); ECall toy_interp (skeleton E_tucker o) RNone] in
+  draw_free (skeleton E_tucker o) = true /\ not_inst RNone = true /\
+  nth_error (fst (fst (run_hist Z Z nat toy_draw toy_seed (h o) 0%Z []))) 0 = nth_error (fst (fst (run_hist Z Z nat toy_draw toy_seed (h o) 0%Z []))) 2 /\
+  snd (fst (run_hist Z Z nat toy_draw toy_seed (h o) 0%Z [])) = 5%Z /\
+  nth_error (fst (fst (run_hist Z Z nat toy_draw toy_seed (h o') 0%Z []))) 0 <> nth_error (fst (fst (run_hist Z Z nat toy_draw toy_seed (h o') 0%Z []))) 2.
+Proof. vm_compute. repeat split; try reflexivity; discriminate. Qed.
